@@ -572,6 +572,27 @@ func c12(r *Report) propMeta {
 	svc := "client/grpc/oracle/proof.proofServer.Proof"
 	r.Exists("proof-for-oracle-store", svc, CallEff("proof.GetMultiStoreProof"), 1)
 	r.Exists("iavl-path-of-result-key", svc, CallEff("types.ResultStoreKey"), 1)
+	// every part of the block proof is computed from the commit fetched by THIS call, never merged with a value from
+	// elsewhere (seed C12-12: a cache keyed by the requested height 0 = "latest" served an older block's header parts
+	// and signatures next to a fresh store proof)
+	for _, h := range []string{"Proof", "MultiProof", "RequestCountProof"} {
+		f := "client/grpc/oracle/proof.proofServer." + h
+		r.AllStoresHave("header-parts-of-this-commit", f, "BlockRelayProof.BlockHeaderMerkleParts", "^call:proof.GetBlockHeaderMerkleParts", "call:CometRPC.Commit")
+		r.AllStoresHave("signatures-of-this-commit", f, "BlockRelayProof.Signatures", "^~call:proof.GetSignaturesAndPrefix", "call:CometRPC.Commit")
+		r.AllStoresHave("vote-part-of-this-commit", f, "BlockRelayProof.CommonEncodedVotePart", "^~call:proof.GetSignaturesAndPrefix", "call:CometRPC.Commit")
+		r.AllStoresHave("store-proof-of-this-query", f, "BlockRelayProof.MultiStoreProof", "^call:proof.GetMultiStoreProof", "call:proof.getProofsByKey")
+	}
+	// ... and the service keeps no state between calls: a proof is a function of the node's answers to THIS call's queries
+	var svcRoots []*ssa.Function
+	for _, h := range []string{"Proof", "MultiProof", "RequestCountProof"} {
+		if f := r.W.Fn("client/grpc/oracle/proof.proofServer." + h); f != nil {
+			svcRoots = append(svcRoots, f)
+		}
+	}
+	r.Lint("service-keeps-no-state", svcRoots, c02LintAllow, 10)
+	// MultiProof proves EVERY requested id or fails: no iteration of its loop gets around the per-id proof (seed C12-11
+	// skipped ids without a result - and with them the iteration that installs the multistore proof)
+	r.LoopAlwaysCalls("every-requested-id-is-proved", "client/grpc/oracle/proof.proofServer.MultiProof", "proof.GetMerklePaths", Cond{})
 	r.Rule("C12.R6", "E19 the ABI mirror of the result copies like to like")
 	pp := "client/grpc/oracle/proof."
 	r.SameNameFields("header-parts-mirror", pp+"BlockHeaderMerkleParts.encodeToEthFormat", "BlockHeaderMerklePartsEthereum", "client/grpc/oracle/proof.BlockHeaderMerkleParts", nil, 8)
